@@ -107,6 +107,7 @@ fn run_case(case: &Value, out: &mut dyn FnMut(Value)) {
     let mut segs: VecDeque<usize> = case["segs"].as_array().unwrap().iter().map(|x| x.as_u64().unwrap() as usize).collect();
     let mut pos = 0usize;
     let mut polls = 0usize;
+    let burst = case.get("burst").and_then(|b| b.as_u64()).unwrap_or(1).max(1) as usize;
     loop {
         // drive the consumer while it is woken
         while !finished && cw.0.swap(0, Ordering::SeqCst) > 0 {
@@ -179,10 +180,16 @@ fn run_case(case: &Value, out: &mut dyn FnMut(Value)) {
         // environment: next segment, then end of stream
         let mut s = src.borrow_mut();
         if pos < body.len() {
-            let n = segs.pop_front().unwrap_or(body.len() - pos).clamp(1, body.len() - pos);
-            max_chunk = max_chunk.max(n);
-            s.q.push_back(Bytes::copy_from_slice(&body[pos..pos + n]));
-            pos += n;
+            // `burst` chunks become ready together before the consumer is polled again
+            for _ in 0..burst {
+                if pos >= body.len() {
+                    break;
+                }
+                let n = segs.pop_front().unwrap_or(body.len() - pos).clamp(1, body.len() - pos);
+                max_chunk = max_chunk.max(n);
+                s.q.push_back(Bytes::copy_from_slice(&body[pos..pos + n]));
+                pos += n;
+            }
         } else if !s.eof {
             s.eof = true;
         } else {
